@@ -30,56 +30,100 @@ fn load_table(path: &str, name: &str) -> Vec<Row> {
         .collect()
 }
 
-fn variant<T: std::fmt::Debug>(t: &T) -> String {
-    let s = format!("{t:?}");
-    s.split('(').next().unwrap_or("").to_string()
+fn tag_variant(t: TagType) -> &'static str {
+    match t {
+        TagType::End => "End",
+        TagType::Cmdline => "Cmdline",
+        TagType::BootLoaderName => "BootLoaderName",
+        TagType::Module => "Module",
+        TagType::BasicMeminfo => "BasicMeminfo",
+        TagType::Bootdev => "Bootdev",
+        TagType::Mmap => "Mmap",
+        TagType::Vbe => "Vbe",
+        TagType::Framebuffer => "Framebuffer",
+        TagType::ElfSections => "ElfSections",
+        TagType::Apm => "Apm",
+        TagType::Efi32 => "Efi32",
+        TagType::Efi64 => "Efi64",
+        TagType::Smbios => "Smbios",
+        TagType::AcpiV1 => "AcpiV1",
+        TagType::AcpiV2 => "AcpiV2",
+        TagType::Network => "Network",
+        TagType::EfiMmap => "EfiMmap",
+        TagType::EfiBs => "EfiBs",
+        TagType::Efi32Ih => "Efi32Ih",
+        TagType::Efi64Ih => "Efi64Ih",
+        TagType::LoadBaseAddr => "LoadBaseAddr",
+        TagType::Custom(_) => "Custom",
+    }
+}
+
+fn mem_variant(t: MemoryAreaType) -> &'static str {
+    match t {
+        MemoryAreaType::Available => "Available",
+        MemoryAreaType::Reserved => "Reserved",
+        MemoryAreaType::AcpiAvailable => "AcpiAvailable",
+        MemoryAreaType::ReservedHibernate => "ReservedHibernate",
+        MemoryAreaType::Defective => "Defective",
+        MemoryAreaType::Custom(_) => "Custom",
+    }
 }
 
 /// what the implementation says about x, reduced to (class, disc, all identities hold)
-fn probe(which: &str, x: u32) -> (String, Option<u32>, bool) {
+type Probe = fn(u32) -> (&'static str, Option<u32>, bool);
+
+fn probe_for(which: &str) -> Probe {
     match which {
-        "tag_type" => {
-            let t = TagType::from(x);
-            let id = TagTypeId::from(x);
-            let ok = u32::from(t) == x
-                && t.val() == x
-                && u32::from(id) == x
-                && TagType::from(id) == t
-                && u32::from(TagTypeId::from(t)) == x
-                && id == x
-                && x == id
-                && t == x
-                && x == t
-                && t == id
-                && id == t
-                && !(id == x.wrapping_add(1))
-                && !(t == x.wrapping_add(1))
-                && !(t == TagTypeId::from(x ^ 0x8000_0000))
-                && match t {
-                    TagType::Custom(c) => c == x,
-                    _ => true,
-                };
-            (variant(&t), None, ok)
-        }
-        "mem_area_type" => {
-            let id = MemoryAreaTypeId::from(x);
-            let t = MemoryAreaType::from(id);
-            let ok = u32::from(id) == x
-                && u32::from(MemoryAreaTypeId::from(t)) == x
-                && id == t
-                && t == id
-                && !(MemoryAreaTypeId::from(x.wrapping_add(1)) == t)
-                && match t {
-                    MemoryAreaType::Custom(c) => c == x,
-                    _ => true,
-                };
-            (variant(&t), None, ok)
-        }
-        "elf_type" => match conv::elf_class(x) {
-            None => ("unused".to_string(), None, true),
-            Some(d) => ("used".to_string(), Some(d), true),
-        },
+        "tag_type" => probe_tag_type,
+        "mem_area_type" => probe_mem_area_type,
+        "elf_type" => probe_elf_type,
         _ => panic!("unknown sweep"),
+    }
+}
+
+fn probe_tag_type(x: u32) -> (&'static str, Option<u32>, bool) {
+    let t = TagType::from(x);
+    let id = TagTypeId::from(x);
+    let ok = u32::from(t) == x
+        && t.val() == x
+        && u32::from(id) == x
+        && TagType::from(id) == t
+        && u32::from(TagTypeId::from(t)) == x
+        && id == x
+        && x == id
+        && t == x
+        && x == t
+        && t == id
+        && id == t
+        && !(id == x.wrapping_add(1))
+        && !(t == x.wrapping_add(1))
+        && !(t == TagTypeId::from(x ^ 0x8000_0000))
+        && match t {
+            TagType::Custom(c) => c == x,
+            _ => true,
+        };
+    (tag_variant(t), None, ok)
+}
+
+fn probe_mem_area_type(x: u32) -> (&'static str, Option<u32>, bool) {
+    let id = MemoryAreaTypeId::from(x);
+    let t = MemoryAreaType::from(id);
+    let ok = u32::from(id) == x
+        && u32::from(MemoryAreaTypeId::from(t)) == x
+        && id == t
+        && t == id
+        && !(MemoryAreaTypeId::from(x.wrapping_add(1)) == t)
+        && match t {
+            MemoryAreaType::Custom(c) => c == x,
+            _ => true,
+        };
+    (mem_variant(t), None, ok)
+}
+
+fn probe_elf_type(x: u32) -> (&'static str, Option<u32>, bool) {
+    match conv::elf_class(x) {
+        None => ("unused", None, true),
+        Some(d) => ("used", Some(d), true),
     }
 }
 
@@ -168,7 +212,8 @@ pub fn main(args: &[String]) {
     let samples: Mutex<Vec<Value>> = Mutex::new(Vec::new());
     std::thread::scope(|s| {
         for t in 0..threads {
-            let (rows, which, bad, checked, samples) = (&rows, &which, &bad, &checked, &samples);
+            let (rows, bad, checked, samples) = (&rows, &bad, &checked, &samples);
+            let probe = probe_for(&which);
             s.spawn(move || {
                 let chunk = (1u64 << 32) / threads;
                 let (from, to) = (t * chunk, if t == threads - 1 { 1u64 << 32 } else { (t + 1) * chunk });
@@ -180,9 +225,9 @@ pub fn main(args: &[String]) {
                         ri += 1;
                     }
                     let row = &rows[ri];
-                    let (class, disc, ok) = probe(which, x as u32);
+                    let (class, disc, ok) = probe(x as u32);
                     n += 1;
-                    if class != row.class || !ok || (row.disc.is_some() && disc != row.disc) {
+                    if class != row.class.as_str() || !ok || (row.disc.is_some() && disc != row.disc) {
                         let b = bad.fetch_add(1, Ordering::Relaxed);
                         if b < 5 {
                             samples.lock().unwrap().push(json!({"x": x, "impl_class": class, "spec_class": row.class, "impl_disc": disc, "spec_disc": row.disc, "identities": ok}));
